@@ -117,7 +117,8 @@ struct Shared {
 /// Runs one iteration. Must be called from inside the scheduler's context (shuttle) or from a
 /// plain thread (E-os).
 pub fn run_iteration(case: &ConcCase, watchdog_secs: u64) -> IterResult {
-    let mut runner = Runner::new(&case.prog, true);
+    let relaxed = crate::sink::RELAXED_CLOCK.load(Ordering::Relaxed);
+    let mut runner = Runner::new(&case.prog, !relaxed);
     let nn = case.prog.nodes.len() as u64;
     runner
         .ctx
